@@ -97,6 +97,9 @@ class _IOFault(IOError):
   pass
 
 
+_INTR = (KeyboardInterrupt, SystemExit)     # interruptions that are BaseException but NOT Exception (Ctrl-C, sys.exit)
+
+
 class _Env:
 
   def __init__(self, root, rec, payload, fault):
@@ -174,6 +177,8 @@ class _Raw:
     env.rec.effect(('read', j))
     if self._fault == ['read', j]:
       raise _IOFault('connection reset (injected)')
+    if self._fault and self._fault[:2] == ['kread', j]:
+      raise _INTR[self._fault[2]]('interrupted in read %d (injected)' % j)
     if self._fault and self._fault[0] == 'readp' and j >= self._fault[1]:
       # PERSISTENT: every read from call j on fails, with the OSError family in rotation
       exc = (ConnectionResetError, TimeoutError, OSError)[(j - self._fault[1]) % 3]
@@ -231,6 +236,8 @@ class _Requests:
     env.rec.effect(('get',))
     fault = env.response_fault(env.responses)
     env.responses += 1
+    if fault and fault[0] == 'kget':
+      raise _INTR[fault[1]]('interrupted while connecting (injected)')
     if fault == ['get'] or fault == ['forbidden']:
       raise self._real.exceptions.ConnectionError('no route (injected)')
     return _Response(env, fault)
@@ -248,6 +255,8 @@ class _ZFile:
     env.rec.effect(('zread', j))
     if env.fault == ['zerr', j]:
       raise real_lzma.LZMAError('corrupt input data (injected)')
+    if env.fault and env.fault[:2] == ['kzerr', j]:
+      raise _INTR[env.fault[2]]('interrupted in decompression read %d (injected)' % j)
     b = self._f.read(n)
     env.read_sizes.append(len(b))
     return b
@@ -371,7 +380,7 @@ def _attempt_core(case, root, fault, real_death=False):
       out['ret_ok'] = (os.path.normpath(r) == os.path.join(root, final))
     except crashfs.SimCrash:
       out['outcome'] = 'crash'
-    except Exception as ex:  # pylint: disable=broad-except
+    except (Exception, KeyboardInterrupt, SystemExit) as ex:  # pylint: disable=broad-except
       out['outcome'] = 'raise:' + type(ex).__name__
   out['trace'] = [list(e) for e in rec.trace]
   out['raw_writes'] = {str(k): v for k, v in rec.raw_writes.items()}
@@ -496,6 +505,8 @@ def _split_core(case, root, fault, real_death=False):
       rec.effect(('client', j))
       if fault == ['cerr', j]:
         raise IOError('interrupted while converting (injected)')
+      if fault and fault[:2] == ['kcerr', j]:
+        raise _INTR[fault[2]]('interrupted while converting (injected)')
       if j >= total:
         raise StopIteration
       self.i += 1
@@ -553,7 +564,7 @@ def _split_core(case, root, fault, real_death=False):
       out['ret_ok'] = int(fd.num_clients()) == SPLIT_TOTAL
     except crashfs.SimCrash:
       out['outcome'] = 'crash'
-    except Exception as ex:  # pylint: disable=broad-except
+    except (Exception, KeyboardInterrupt, SystemExit) as ex:  # pylint: disable=broad-except
       out['outcome'] = 'raise:' + type(ex).__name__
   finally:
     (dl.maybe_download, dl.maybe_lzma_decompress, dl.validate_file, dl.log, sfd.TFFSQLiteClientsIterator,
@@ -755,7 +766,83 @@ def _run_collide(case):
   return {'collide': first, 'other_complete': ok, 'other_absent': absent}
 
 
+# --------------------------------------------------------------------------
+# the loader sequence ACROSS both functions: download, decompress, download again, decompress again (what
+# cifar100.load_split does on every call).  The second round must not touch the network or the decompressor and every
+# cache file that was complete must still be there with the same bytes.  Judged by the oracle alone.
+
+def _run_loader(case):
+  from fedjax.datasets import downloads as dl
+  payload = _payload(case['size'], case.get('fill', 0))
+  compressed = real_lzma.compress(payload, preset=0)
+  base = tempfile.mkdtemp(prefix='C19-loader-')
+  steps = []
+  try:
+    root = os.path.join(base, 'cache')
+    known = {}      # cache file -> bytes it had when it was first complete
+    for rnd in range(case.get('rounds', 2)):
+      for fn in ('download', 'decompress'):
+        rec = crashfs.Recorder()
+        env = _Env(root, rec, compressed if fn == 'download' else payload, None)
+        st = {'fn': fn, 'round': rnd}
+        with _Patched(env):
+          try:
+            if fn == 'download':
+              r = dl.maybe_download(URL_BASE + 'data.lzma', root)
+              want = os.path.join(root, 'data.lzma')
+            else:
+              r = dl.maybe_lzma_decompress(os.path.join(root, 'data.lzma'))
+              want = os.path.join(root, 'data')
+            st['outcome'] = 'ret' if os.path.normpath(r) == want else 'ret-wrong-path'
+          except Exception as ex:  # pylint: disable=broad-except
+            st['outcome'] = 'raise:' + type(ex).__name__
+        st['requests'] = env.responses
+        st['touched'] = bool(env.net_touched)
+        lost = []
+        for name, data in known.items():
+          p = os.path.join(root, name)
+          if not os.path.exists(p):
+            lost.append([name, 'missing'])
+          else:
+            with open(p, 'rb') as f:
+              if f.read() != data:
+                lost.append([name, 'changed'])
+        st['lost'] = lost
+        for name, data in (('data.lzma', compressed), ('data', payload)):
+          p = os.path.join(root, name)
+          if name not in known and os.path.exists(p):
+            with open(p, 'rb') as f:
+              if f.read() == data:
+                known[name] = data
+        st['files'] = crashfs.listing(root)
+        steps.append(st)
+  finally:
+    shutil.rmtree(base, ignore_errors=True)
+  return {'loader': steps}
+
+
+def _oracle_loader(case, obs):
+  out = []
+  for st in obs['loader']:
+    if st['outcome'] != 'ret':
+      out.append(('loader-call-fails', f'{st["fn"]} of round {st["round"]}: {st["outcome"]}'))
+      break
+    if st['lost']:
+      out.append(('loader-cache-file-lost', f'after {st["fn"]} of round {st["round"]} a cache file that had been '
+                  f'complete is {st["lost"]}'))
+      break
+    if st['round'] >= 1 and (st['requests'] or st['touched']):
+      out.append(('loader-refetches', f'{st["fn"]} of round {st["round"]}: every cache file had been complete, yet the '
+                  f'{"network was contacted " + str(st["requests"]) + " time(s)" if st["requests"] else "decompressor ran again"}'))
+      break
+  if not out and obs['loader'] and obs['loader'][0]['requests'] != 1:
+    out.append(('loader-request-count', f'the first download made {obs["loader"][0]["requests"]} requests, expected 1'))
+  return out
+
+
 def run(case):
+  if case['kind'] == 'loader':
+    return _run_loader(case)
   if case['kind'] == 'collide':
     return _run_collide(case)
   if case['kind'] == 'validate':
@@ -771,6 +858,8 @@ def run(case):
 # --------------------------------------------------------------------------
 
 def oracle(case, obs):
+  if case['kind'] == 'loader':
+    return _oracle_loader(case, obs)
   if case['kind'] == 'collide':
     if not (obs['other_complete'] or obs['other_absent']):
       return [('partial-name-collision', 'downloading <name> wrote through the complete cached file of another URL '
@@ -870,7 +959,7 @@ def _encode_split(case, obs):
   for a in obs['attempts']:
     f = a['fault']
     clients = [1] * SPLIT_TOTAL
-    if f and f[0] == 'cerr':
+    if f and f[0] in ('cerr', 'kcerr'):
       clients = clients[:f[1]] + [None]
     elif f == ['short']:
       clients = clients[:-1]
@@ -883,7 +972,7 @@ def _encode_split(case, obs):
 
 
 def encode(case, obs):
-  if case['kind'] in ('validate', 'misc', 'collide'):
+  if case['kind'] in ('validate', 'misc', 'collide', 'loader'):
     return None
   if case['kind'] == 'cifar_split':
     return _encode_split(case, obs)
@@ -903,6 +992,10 @@ def encode(case, obs):
   calls, ocalls = [], []
   for a in att:
     f = a['fault']
+    if f and f[0] in ('kget', 'kread', 'kzerr'):
+      # an interruption that is not an Exception: on code whose only handlers are `with` blocks it is the same
+      # effect sequence as an I/O error at that point
+      f = ['get'] if f[0] == 'kget' else [f[0][1:], f[1]]
     if f and f[0] == 'once':
       f = list(f[1:])       # on the code as the model describes it (no retry inside a call) a transient fault
                             # is the same as a persistent one
@@ -971,8 +1064,11 @@ def _single_faults(case, full, rot):
   if kind == 'download':
     inner = [['get'], ['status'], ['nolen']] + [['read', j] for j in range(nreads)]
     fs += inner + [['once'] + f for f in inner] + [['readp', j] for j in range(nreads)]
+    fs += [['kget', rot % 2], ['kget', 1 - rot % 2]] + [['kread', j, (j + rot) % 2] for j in range(nreads)]
+    fs += [['kread', j, (j + rot + 1) % 2] for j in range(nreads)] if full else []
   else:
     fs += [['zerr', j] for j in range(nreads)] + [['corrupt', 1, 2], ['corrupt', 9, 10]]
+    fs += [['kzerr', j, (j + rot) % 2] for j in range(nreads)] + ([['kzerr', j, (j + rot + 1) % 2] for j in range(nreads)] if full else [])
   fs += [['flusherr', c] for c in range(3)]
   pts = _crash_points(tr, rw, full, rot)
   return fs + pts
@@ -999,6 +1095,9 @@ def generate(tier, rng):
         yield {**case, 'attempts': list(hist)}
     return
   yield from _extra_cases()
+  for j, n in enumerate([0, 1, 1000, cb - 1, cb, cb + 1, 3 * cb + 7, BS + 1]):
+    for fill in range(3):
+      yield {'kind': 'loader', 'size': n, 'fill': fill, 'rounds': 2 + (j + fill) % 2}
   for split in ('train', 'test'):
     case = {'kind': 'cifar_split', 'split': split, 'attempts': []}
     yield case
@@ -1006,6 +1105,7 @@ def generate(tier, rng):
     yield {**case, 'stale': 3, 'attempts': [['cerr', 1]]}
     tr = _run_cifar(case, [None])['attempts'][-1]['trace']
     singles = [['cerr', j] for j in range(SPLIT_TOTAL + 1)] + [['short']] + [['crash', k, 0, 0] for k in range(len(tr) + 1)]
+    singles += [['kcerr', j, j % 2] for j in range(SPLIT_TOTAL + 1)]
     for f in singles:
       yield {**case, 'attempts': [f]}
     for f in singles:                         # twice: the retry finds the stale .partial of the first
@@ -1042,13 +1142,13 @@ def generate(tier, rng):
 
 
 def nontrivial(case, obs):
-  if case['kind'] in ('validate', 'misc', 'collide'):
+  if case['kind'] in ('validate', 'misc', 'collide', 'loader'):
     return True
   return any(a['outcome'] != 'ret' for a in obs['attempts'])
 
 
 def describe(case, obs):
-  if case['kind'] in ('validate', 'misc', 'collide'):
+  if case['kind'] in ('validate', 'misc', 'collide', 'loader'):
     return {'kind': case['kind']}
   if case['kind'] == 'cifar_split':
     fs = _split_faults(case)
@@ -1067,7 +1167,7 @@ def describe(case, obs):
 
 
 def shrink(case):
-  if case['kind'] in ('validate', 'misc', 'collide'):
+  if case['kind'] in ('validate', 'misc', 'collide', 'loader'):
     return
   if case['kind'] == 'cifar_split':
     fs = _split_faults(case)
